@@ -96,7 +96,9 @@ def snapshot(hszinc, g):
 
 
 OPS = ['meta_set', 'meta_append', 'meta_extend', 'meta_update', 'col_set', 'col_append', 'col_plain', 'append', 'insert',
-       'extend', 'iadd', 'setitem', 'row_mutate']
+       'extend', 'iadd', 'setitem', 'row_mutate',
+       # the same key again: overwrite in place / relocate an existing key (the store paths differ inside the maps)
+       'meta_set_same', 'col_set_same', 'meta_relocate_same', 'col_append_same']
 CTOR_OPS = ['ctor_meta', 'ctor_col', 'ctor_coldict']
 BYPASS = ('col_plain', 'row_mutate')
 
@@ -114,6 +116,14 @@ def apply_op(hszinc, g, op, k, step):
             g.metadata.extend([(name, v)])
         elif op == 'meta_update':
             g.metadata.update({name: v})
+        elif op == 'meta_set_same':
+            g.metadata['same'] = v
+        elif op == 'col_set_same':
+            g.column['a']['same'] = v
+        elif op == 'meta_relocate_same':
+            g.metadata.add_item('same', v, index=0)
+        elif op == 'col_append_same':
+            g.column['a'].append('same', v)
         elif op == 'col_set':
             g.column['a'][name] = v
         elif op == 'col_append':
@@ -285,6 +295,7 @@ JSON_VAL = {'na': 'z:', 'list': ['n:1', 's:x'], 'dict': {'k': 'n:1'},
             'grid': {'meta': {'ver': '3.0'}, 'cols': [{'name': 'inner'}], 'rows': [{'inner': 'n:1'}]},
             'xstr': 'x:Type:payload', 'str': 's:plain', 'num': 'n:1.5'}
 POSITIONS = ['cell', 'grid-meta', 'col-meta']
+OVERWRITE_OPS = {'grid-meta': 'meta_set_same', 'col-meta': 'col_set_same'}
 
 
 def zinc_doc(ver, k, pos):
@@ -324,6 +335,12 @@ def matrix(ctx, hszinc):
                 op = {'cell': 'append', 'grid-meta': 'meta_set', 'col-meta': 'col_set'}[pos]
                 exc = apply_op(hszinc, g, op, k, 0)
                 dec['grid'] = ('refuse', exc) if exc else ('accept', None)
+                if pos in OVERWRITE_OPS:
+                    # same decision when the key already exists (in-place replacement)
+                    g2 = hszinc.Grid(version=ver, columns=[('a', []), ('b', [])])
+                    apply_op(hszinc, g2, OVERWRITE_OPS[pos], 'str', 0)
+                    exc2 = apply_op(hszinc, g2, OVERWRITE_OPS[pos], k, 1)
+                    dec['grid-overwrite'] = ('refuse', exc2) if exc2 else ('accept', None)
                 # writers: grid built through a bypass so that the value is really in there
                 g = hszinc.Grid(version=ver, columns=[('a', []), ('b', [])])
                 if pos == 'cell':
@@ -382,7 +399,7 @@ def matrix(ctx, hszinc):
                     elif d == 'dropped':
                         ctx.violation({'part': 'matrix', 'format': decider, 'kind': k, 'symptom': 'value-dropped', 'features': feats},
                                       '%s returned a grid without the %s' % (decider, k), {'version': ver, 'kind': k, 'pos': pos})
-                    elif d == 'refuse' and exp == 'refuse' and decider in ('grid', 'zinc-writer', 'json-writer',
+                    elif d == 'refuse' and exp == 'refuse' and decider in ('grid', 'grid-overwrite', 'zinc-writer', 'json-writer',
                                                                           'zinc-scalar-writer', 'json-scalar-writer') \
                             and info != 'ValueError':
                         ctx.violation({'part': 'matrix', 'format': decider, 'kind': k, 'symptom': 'refusal-not-ValueError:' + str(info), 'features': feats},
